@@ -115,3 +115,96 @@ func PSchema(s *ast.Schema) string {
 	}
 	return "(mkPS " + strList(names) + " " + strList(ifaces) + " [" + strings.Join(poss, "; ") + "] [" + strings.Join(fields, "; ") + "])"
 }
+
+// ---- Plan.Sanitize ----
+
+// SSels renders a selection set as a list of Plan.Sanitize.ssel. Fragment spreads are rendered as the inline
+// fragment sanitizeSelectionSet turns them into. ok=false when a fragment definition is spread more than once
+// (the sanitizer edits the shared definition in place: outside the pure model).
+func SSels(ss ast.SelectionSet, spreads map[string]int) string {
+	items := make([]string, 0, len(ss))
+	for _, s := range ss {
+		switch s := s.(type) {
+		case *ast.Field:
+			ty := ""
+			if s.Definition != nil && s.Definition.Type != nil {
+				ty = s.Definition.Type.Name()
+			}
+			items = append(items, "SanField "+CoqStr(s.Alias)+" "+CoqStr(s.Name)+" "+CoqStr(ty)+" "+itoa(len(s.Directives))+" "+SSels(s.SelectionSet, spreads))
+		case *ast.InlineFragment:
+			od := ""
+			if s.ObjectDefinition != nil {
+				od = s.ObjectDefinition.Name
+			}
+			items = append(items, "SanFrag "+CoqStr(s.TypeCondition)+" "+CoqStr(od)+" "+SSels(s.SelectionSet, spreads))
+		case *ast.FragmentSpread:
+			od := ""
+			if s.ObjectDefinition != nil {
+				od = s.ObjectDefinition.Name
+			}
+			if s.Definition != nil {
+				if spreads != nil {
+					spreads[s.Name]++
+				}
+				items = append(items, "SanFrag "+CoqStr(s.Definition.TypeCondition)+" "+CoqStr(od)+" "+SSels(s.Definition.SelectionSet, spreads))
+			}
+		}
+	}
+	return "[" + strings.Join(items, "; ") + "]"
+}
+
+func itoa(n int) string {
+	b := []byte{}
+	if n == 0 {
+		return "0"
+	}
+	for n > 0 {
+		b = append([]byte{byte('0' + n%10)}, b...)
+		n /= 10
+	}
+	return string(b)
+}
+
+// SSchema renders the schema facts the sanitizer reads as Plan.Sanitize.sschema.
+func SSchema(s *ast.Schema) string {
+	var names []string
+	for n := range s.Types {
+		names = append(names, n)
+	}
+	sort.Strings(names)
+	var kinds, poss, hasID []string
+	for _, n := range names {
+		d := s.Types[n]
+		switch d.Kind {
+		case ast.Interface:
+			kinds = append(kinds, "("+CoqStr(n)+", KIface)")
+		case ast.Union:
+			kinds = append(kinds, "("+CoqStr(n)+", KUnion)")
+		default:
+			continue
+		}
+		var ps []string
+		for _, p := range s.PossibleTypes[n] {
+			ps = append(ps, p.Name)
+		}
+		poss = append(poss, "("+CoqStr(n)+", "+strList(ps)+")")
+		if d.Fields.ForName("id") != nil {
+			hasID = append(hasID, n)
+		}
+	}
+	return "(mkSS [" + strings.Join(kinds, "; ") + "] [" + strings.Join(poss, "; ") + "] " + strList(hasID) + ")"
+}
+
+// Scrub renders ScrubFields as Plan.Sanitize.scrub (sorted).
+func Scrub(sf planner.ScrubFields) string {
+	var items []string
+	for path, m := range sf {
+		for t, fs := range m {
+			for _, f := range fs {
+				items = append(items, "("+CoqStr(path)+", "+CoqStr(t)+", "+CoqStr(f)+")")
+			}
+		}
+	}
+	sort.Strings(items)
+	return "[" + strings.Join(items, "; ") + "]"
+}
